@@ -320,7 +320,36 @@ func genPipePlan(seed int64, o PipeGenOpts) *PipePlan {
 							// superseded definition must not be applied to them
 							ti := r.Intn(len(fe.tpls))
 							old := fe.tpls[ti]
-							if ml := fe.g.MinRecLen(&old); ml > 0 && ml < 200 {
+							if ml := fe.g.MinRecLen(&old); ml > 0 && ml < 200 && r.Intn(3) == 0 {
+								// ... or by a definition that uses an element the information
+								// model lacks: data sets under the new definition are undecodable
+								// and must be skipped, not decoded under the superseded one
+								nt := old
+								nt.Fields = append([]model.FieldSpec(nil), old.Fields...)
+								nt.Scope = append([]model.FieldSpec(nil), old.Scope...)
+								unk := model.FieldSpec{ID: uint16(21000 + r.Intn(500)), Len: uint16(1 + r.Intn(8))}
+								if len(nt.Fields) > 0 {
+									nt.Fields[r.Intn(len(nt.Fields))] = unk
+								} else {
+									nt.Fields = []model.FieldSpec{unk}
+								}
+								d1, _ := fe.g.DataSet(&nt, 1+r.Intn(3), 300)
+								saved := m.Sets
+								m.Sets = append(append([]model.Set(nil), saved...), fe.g.TemplateSets([]model.Template{nt})...)
+								m.Sets = append(m.Sets, d1)
+								if enc, _ := m.Encode(func(id uint16) *model.Template {
+									for k := range fe.tpls {
+										if fe.tpls[k].ID == id {
+											return &fe.tpls[k]
+										}
+									}
+									return nil
+								}); len(enc) > p.Cfg.udpSize(proto)-20 {
+									m.Sets = saved
+								} else {
+									fe.tpls[ti] = nt
+								}
+							} else if ml > 0 && ml < 200 {
 								nt := model.Template{ID: old.ID}
 								switch r.Intn(3) {
 								case 0: // no fields at all
